@@ -126,6 +126,7 @@ class Registry:
         self.keep = []         # strong refs so that ids stay unique
         self.cons = {}         # id(con dict) -> (src query content, score)
         self.recon = {}        # id(tree) -> src
+        self.paths = {}        # id(path tuple) -> ("con", src) | provenance of the tree it was read from
         self.scores = []       # [q, o, k, score]
         self.stops = []        # [q, o, k]
         self.escores = []      # [q, o, k, score]
@@ -210,6 +211,16 @@ def patch():
                 with REG.lock:
                     REG.stops.append([getattr(TL, "q", 97), REG.hnum(self), n1 - 1])
     H.HyperOptimizer._search = _search
+
+    h_call = H.HyperOptimizer.__call__
+
+    def hyper_call(self, inputs, output, size_dict, memory_limit=None):
+        path = h_call(self, inputs, output, size_dict, memory_limit)
+        with REG.lock:
+            REG.paths[id(path)] = classify(self.tree)
+            REG.keep.append(path)
+        return path
+    H.HyperOptimizer.__call__ = hyper_call
 
     rg_search = PB.RandomGreedyOptimizer.search
 
@@ -307,6 +318,7 @@ def patch():
                 with REG.lock:
                     REG.cons[id(con)] = tree_content(tree)
                     REG.keep.append(con)
+                    REG.paths[id(con["path"])] = ("con", tree_content(tree))
                     ok = REG.trees.get(id(tree), (98, 98))
                     REG.escores.append([tree_content(tree), ok[0], ok[1], float(con["score"])])
                 return con
@@ -450,6 +462,15 @@ def classify(tree):
     return [1, qc]
 
 
+def classify_path(path, q):
+    v = REG.paths.get(id(path))
+    if v is None:
+        return [1, q]
+    if v[0] == "con":
+        return [2, q, v[1]]
+    return list(v)
+
+
 def load_pool(job):
     global POOL
     POOL = [(tuple(tuple(t) for t in q["inputs"]), tuple(q["output"]), dict(q["size_dict"])) for q in job["queries"]]
@@ -486,18 +507,19 @@ def run_forced(job):
                 TL.q = q
                 yp(L_BEGIN)
                 try:
-                    kind, val = ask(target, "tree", q)
+                    kind, val = ask(target, job.get("api", "tree"), q)
                 except Abort:
                     raise
                 except Exception as e:
                     results[idx].append([q, 9])
                     bad.append({"thread": idx, "query": q, "raised": repr(e)})
                     continue
-                results[idx].append([q] + classify(val))
+                prov = classify(val) if kind == "tree" else classify_path(val, q)
+                results[idx].append([q] + prov)
                 msg = judge(kind, val, q)
                 if msg:
                     bad.append({"thread": idx, "query": q, "what": msg, "got": describe(kind, val),
-                                "provenance": classify(val)})
+                                "provenance": prov})
         except Abort:
             pass
         finally:
